@@ -310,10 +310,12 @@ class WebSocket(object):
             self._close(state, message.code, message.reason)
             state.closing = True
 
-    def force_disconnect(self):
+    def force_disconnect(self, state=None):
         """Force the socket to disconnect."""
-        if self.state.session is not None:
-            self.state.session.force_disconnect()
+        if state is None:
+            state = self.state
+        if state.session is not None:
+            state.session.force_disconnect()
 
     def on_disconnect(self, state=None):
         """Called on disconnect."""
@@ -326,24 +328,30 @@ class WebSocket(object):
         state.closed = True
         state.closing = False
 
-    def feed(self, data):
+    def feed(self, data, state=None):
         """Feed with data from the socket, and yield any events.
 
         This method is called by the Session object, and is not needed
         for normal use.
 
         :param bytes data: data received over a socket.
+        :param state: The state of the connection the data was received
+            on (the session passes its own; connect() may have been
+            called again since that connection was made).
 
         """
-        if self.is_closed:
+        if state is None:
+            state = self.state
+        if state.closed:
             return
-        state = self.state
         try:
-            for message in self.stream.feed(data):
+            for message in state.stream.feed(data):
                 if isinstance(message, Response):
                     response = message
                     try:
-                        protocol, extensions = self.on_response(response)
+                        protocol, extensions = self.on_response(
+                            response, state
+                        )
                     except errors.HandshakeError as error:
                         self.on_disconnect(state)
                         yield events.Rejected(response, six.text_type(error))
@@ -370,7 +378,7 @@ class WebSocket(object):
             # Usually invalid unicode.
             log.debug('critical protocol error; %s', error)
             yield events.ProtocolError(six.text_type(error), True)
-            self.force_disconnect()
+            self.force_disconnect(state)
 
         except errors.ProtocolError as error:
             # A violation of the protocol that allows for a graceful
@@ -378,7 +386,7 @@ class WebSocket(object):
             log.debug('protocol error; %s', error)
             yield events.ProtocolError(six.text_type(error), False)
             self._close(state, Status.PROTOCOL_ERROR, six.text_type(error))
-            self.force_disconnect()
+            self.force_disconnect(state)
 
         except GeneratorExit:
             # The generator has exited prematurely, due to an exception
@@ -388,13 +396,15 @@ class WebSocket(object):
             # may have been called again since it was started
             self.on_disconnect(state)
 
-    def build_request(self):
+    def build_request(self, state=None):
         """Get the websocket request (in bytes).
 
         This method is called from the session, and should not be
         invoked explicitly.
 
         """
+        if state is None:
+            state = self.state
         request = [
             "GET {} HTTP/1.1".format(self.resource).encode('utf-8')
         ]
@@ -405,7 +415,7 @@ class WebSocket(object):
             (b'Host', self._host_port.encode('utf-8')),
             (b'Upgrade', b'websocket'),
             (b'Connection', b'Upgrade'),
-            (b'Sec-WebSocket-Key', self.key),
+            (b'Sec-WebSocket-Key', state.key),
             (b'Sec-WebSocket-Version', version.encode('utf-8')),
             (b'User-Agent', self.agent.encode('utf-8')),
         ])
@@ -428,8 +438,10 @@ class WebSocket(object):
         request_bytes = b'\r\n'.join(request)
         return request_bytes
 
-    def on_response(self, response):
+    def on_response(self, response, state=None):
         """Called when the HTTP response has been received."""
+        if state is None:
+            state = self.state
         if response.status_code != 101:
             raise errors.HandshakeError(
                 'Websocket upgrade failed (code={})',
@@ -450,7 +462,7 @@ class WebSocket(object):
             )
 
         challenge = b64encode(
-            sha1(self.key + constants.WS_KEY).digest()
+            sha1(state.key + constants.WS_KEY).digest()
         ).decode('ascii')
 
         if accept_header.lower() != challenge.lower():
@@ -460,12 +472,14 @@ class WebSocket(object):
 
         protocol = response.get('sec-websocket-protocol')
         extensions = self.process_extensions(
-            response.get_list('sec-websocket-extensions')
+            response.get_list('sec-websocket-extensions'), state
         )
         return protocol, extensions
 
-    def process_extensions(self, extensions):
+    def process_extensions(self, extensions, state=None):
         """Process extension headers."""
+        if state is None:
+            state = self.state
         enabled_extensions = set()
         for extension in extensions:
             extension_token, options = parse_extension(extension)
@@ -477,8 +491,8 @@ class WebSocket(object):
                     continue
                 enabled_extensions.add('permessage-deflate')
                 compression = Deflate.from_options(options)
-                self.state.compression = compression
-                self.state.stream.set_compression(compression)
+                state.compression = compression
+                state.stream.set_compression(compression)
                 log.debug('%r enabled', compression)
         return enabled_extensions
 
